@@ -99,7 +99,7 @@ def judge_single(run, res, expect_fail_attempts=None, hook_fail=False):
 
 def run_ca_case(case):
     names = ['d%d.example.org' % i for i in range(case['n_ids'])]
-    plan = {'default': {'lifetimes_s': [100, LONG], 'chain_lens': [2]}, 'faults': case['rules']}
+    plan = {'default': dict({'lifetimes_s': [100, LONG], 'chain_lens': [2]}, **(case.get('ca_cfg') or {})), 'faults': case['rules']}
     n_fault_attempts = len({r.get('attempt') for r in case['rules']})
 
     def cfg(d, ca):
@@ -134,9 +134,16 @@ def run_hook_case(case):
             if case.get('unspawnable') and n == case['hook']:
                 h['cmd'] = d + '/no-such-command'
             hooks.append(h)
+        names = list(HOOK_CLASSES)
+        if case.get('second_hooks'):
+            # a second, well-behaved hook of every class after the first one: its success does not make up for a failure before it
+            for n, types in HOOK_CLASSES.items():
+                if n != 'h_post':
+                    hooks.append(C.rec_hook(n + '_b', types, d + '/hooks.log', plan=d + '/hookplan.json'))
+                    names.append(n + '_b')
         c = S.std_config(d, ca, [{'name': 'c0', 'identifiers': S.ids('d0.example.org', 'd1.example.org'),
-                                  'hooks': list(HOOK_CLASSES)}],
-                         accounts=[{'name': 'acc1', 'hooks': ['h_fpre', 'h_fpost']}], extra_hooks=hooks)
+                                  'hooks': names}],
+                         accounts=[{'name': 'acc1', 'hooks': ['h_fpre', 'h_fpost'] + (['h_fpre_b', 'h_fpost_b'] if case.get('second_hooks') else [])}], extra_hooks=hooks)
         return c
     plan = {'default': {'lifetimes_s': [100, LONG], 'chain_lens': [2]}}
 
@@ -352,7 +359,7 @@ def gen(tier):
     for hook in HOOK_CLASSES:
         for ex in (1, 2, 127, 255, 'signal'):
             for at in ((0, 1) if tier == 'quick' else (0, 1, 2, 3)):
-                hook_cases.append({'hook': hook, 'exit': ex, 'at': at})
+                hook_cases.append({'hook': hook, 'exit': ex, 'at': at, 'second_hooks': (len(hook_cases) % 2 == 1)})
         if hook != 'h_post':  # an unspawnable post-operation hook leaves nothing to observe
             hook_cases.append({'hook': hook, 'exit': 0, 'at': 0, 'unspawnable': True})
     if tier == 'quick':
@@ -378,6 +385,12 @@ def gen(tier):
         first = [c for c in storms if c['label'] == 'storm:badNonce'][:3]
         storms = first + [c for c in storms if c not in first][:7]
     ca_cases += storms
+    # polling answers that are fine but carry a Retry-After header (a day, two minutes, an HTTP date): the attempt still ends
+    for kind, nth in (('authzPoll', 0), ('orderPoll', 0), ('orderPoll', 1)):
+        for ra in ('86400', '120', 'Wed, 21 Oct 2037 07:28:00 GMT'):
+            act = {'action': 'add_headers', 'headers': {'Retry-After': ra}, 'label': 'retry-after:' + ra[:5]}
+            ca_cases.append({'n_ids': 1, 'kind': kind, 'nth': nth, 'label': act['label'], 'ca_cfg': {'authz_pending_polls': 2, 'order_ready_polls': 1, 'order_valid_polls': 2},
+                             'rules': [F.rule(kind, nth, act, attempt=2, tx_from=0, tx_to=None)]})
     state = []
     for ks in ('empty', 'garbage', 'cut-in-half', 'cut-tail', 'cert-instead', 'valid-same-type', 'valid-other-type', 'absent'):
         for reuse in (True, False):
@@ -443,7 +456,7 @@ def run(tier):
     chk.exhaustive = (tier == 'thorough')
     chk.rule = ('CA/network single faults (position x action%s), random multi-fault sequences over 3-6 attempts, hook faults '
                 '(5 hook classes x exit codes/signal/unspawnable x invocation index), certificate sets of 2-6 with a failing subset, '
-                'the same recoverable error answered to every try of one request, unusable / foreign private-key files left on disk with and without kp_reuse, shipped binary with real waits; distinct = cases whose fault was observed to fire' % (', complete for 1 identifier' if tier == 'thorough' else ', stratified sample'))
+                'the same recoverable error answered to every try of one request, polling answers carrying Retry-After, a second well-behaved hook after the failing one, unusable / foreign private-key files left on disk with and without kp_reuse, shipped binary with real waits; distinct = cases whose fault was observed to fire' % (', complete for 1 identifier' if tier == 'thorough' else ', stratified sample'))
     chk.assumptions = ['attempt = directory fetch .. post-operation hook', 'CLOCK_MONOTONIC shared by hookrec and mockca',
                        'the verification build pauses 1 s after a failed attempt (shipped value: see DESIGN), all other waits are 0']
     rc = chk.finish()
